@@ -41,8 +41,9 @@ def is_np(e, attr):
 
 
 class Fn:
-    def __init__(self, node, lean_name, sig):
+    def __init__(self, node, lean_name, sig, labelled=False):
         self.node, self.lean_name = node, lean_name
+        self.labelled = labelled        # keep node labels: `index_of_node[x]` is `idx x`, `nodelist` a list of labels
         self.params = [tuple(x.split(":")) for x in sig.split()]
         names = [a.arg for a in node.args.args]
         if names != [p for p, _ in self.params]:
@@ -80,11 +81,13 @@ class Fn:
             if isinstance(i, ast.Constant) and i.value in (0, 1):
                 return self.meta[e.value.id][i.value]
         if isinstance(e, ast.Subscript) and isinstance(e.value, ast.Name) and self.env.get(e.value.id) == "IDX":
+            if self.labelled:
+                return f"(idx {self.nat(e.slice)})"                 # index_of_node[x]
             return self.nat(e.slice)                               # index_of_node[x] ↦ x
         if isinstance(e, ast.Call) and isinstance(e.func, ast.Name) and e.func.id == "len" and len(e.args) == 1:
             a = e.args[0]
             if isinstance(a, ast.Name) and self.env.get(a.id) == "NL":
-                return "N"
+                return "nodelist.length" if self.labelled else "N"
             if isinstance(a, ast.Name) and self.env.get(a.id) == "V":
                 return f"{self.cur[a.id]}.n"
         if isinstance(e, ast.Call) and isinstance(e.func, ast.Attribute) and e.func.attr == "order" \
@@ -469,7 +472,7 @@ class Fn:
         elif self.neighbors(it) and isinstance(tgt, ast.Name):
             lst, var, binds = self.neighbors(it), tgt.id, {}
         elif isinstance(it, ast.Name) and self.env.get(it.id) == "NL" and isinstance(tgt, ast.Name):
-            lst, var, binds = "List.range N", tgt.id, {}
+            lst, var, binds = ("nodelist" if self.labelled else "List.range N"), tgt.id, {}
         elif isinstance(it, ast.Call) and isinstance(it.func, ast.Name) and it.func.id == "enumerate" and len(it.args) == 1 \
                 and isinstance(it.args[0], ast.Call) and isinstance(it.args[0].func, ast.Name) and it.args[0].func.id == "zip" \
                 and isinstance(tgt, ast.Tuple) and len(tgt.elts) == 2 and isinstance(tgt.elts[0], ast.Name) \
@@ -482,7 +485,7 @@ class Fn:
             if len(names) != len(zargs) or not all(isinstance(n, ast.Name) for n in names):
                 raise Unsupported("zip arity")
             lst, var = "List.range N", tgt.elts[0].id
-            binds = {names[0].id: ("I", var)}
+            binds = {names[0].id: ("I", f"(nodelist.getD {var} 0)" if self.labelled else var)}
             for n, a in zip(names[1:], zargs[1:]):
                 if not (isinstance(a, ast.Name) and self.env.get(a.id) == "V"):
                     raise Unsupported("zip of a non-vector")
@@ -559,8 +562,11 @@ class Fn:
             elif k == "SHAPE":
                 ps.append("(rowsA colsB : Nat)")
             elif k == "G":
-                ps.append("(N : Nat) (nbrs : Nat → List Nat)")
-        head = f"/-- generated from `{self.node.name}` (EoN/analytic.py:{self.node.lineno}) -/\n" \
+                ps.append("(nodelist : List Nat) (idx : Nat → Nat) (nbrs : Nat → List Nat)" if self.labelled else "(N : Nat) (nbrs : Nat → List Nat)")
+        if self.labelled:
+            lines = ["  let N : Nat := nodelist.length"] + lines
+        head = f"/-- generated from `{self.node.name}` (EoN/analytic.py:{self.node.lineno})" \
+               + (", node labels kept: `nodelist` lists the labels, `idx` is `index_of_node`, `nbrs`/`tr`/`rr` take labels" if self.labelled else "") + " -/\n" \
                f"def {self.lean_name} {' '.join(ps)} : V :=\n"
         return head + "\n".join(lines) + ("\n" if lines else "") + f"  {ret}\n"
 
@@ -593,6 +599,17 @@ def translate(repo=REPO):
         except Unsupported as ex:
             errors[name] = f"unsupported: {ex}"
     sha = hashlib.sha1("\n".join(sources.get(n, "") for n in SIGS).encode()).hexdigest()
+    # second file: the four graph right-hand sides with node LABELS kept (the index_of_node mapping is explicit): C14
+    outL, errL = [], {}
+    for name, (lean_name, sig) in SIGS.items():
+        if " G:G " not in " " + sig + " " or name not in fns:
+            continue
+        try:
+            outL.append(Fn(fns[name], lean_name + "L", sig, labelled=True).emit())
+        except Unsupported as ex:
+            errL[name + " (labelled)"] = f"unsupported: {ex}"
+    translate.labelled_text = (HEADER.format(sha=sha).replace("namespace Gen\n", "namespace GenL\nopen Gen\n") + "\n".join(outL) + "\nend GenL\n") if not errL else ""
+    errors.update(errL)
     return HEADER.format(sha=sha) + "\n".join(out) + "\nend Gen\n", errors
 
 
@@ -608,7 +625,15 @@ def regenerate():
         with open(tmp, "w") as f:
             f.write(text)
         os.replace(tmp, target)
-    return old != text, errors
+    ltext = getattr(translate, "labelled_text", "")
+    ltarget = os.path.join(os.path.dirname(target), "AnalyticLoopsL.lean")
+    lold = open(ltarget).read() if os.path.exists(ltarget) else None
+    if ltext and lold != ltext:
+        tmp = ltarget + ".tmp%d" % os.getpid()
+        with open(tmp, "w") as f:
+            f.write(ltext)
+        os.replace(tmp, ltarget)
+    return old != text or (bool(ltext) and lold != ltext), errors
 
 
 def main():
